@@ -197,6 +197,12 @@ func (o Op) Coq() string {
 		return fmt.Sprintf("(UpdSecrets %s %d %s %d %s)", n, o.Pw, B(o.Fok), o.Label, B(o.Dfail))
 	case "Upd":
 		return fmt.Sprintf("(Upd %s %s %d %s)", n, B(o.Fok), o.Label, B(o.Dfail))
+	case "View":
+		return fmt.Sprintf("(ViewSecrets %s %d)", n, o.Pw)
+	case "GetSeed":
+		return fmt.Sprintf("(GetSeed %s %d)", n, o.Pw)
+	case "Read":
+		return fmt.Sprintf("(ReadW %s)", n)
 	}
 	panic("bad op")
 }
@@ -212,7 +218,7 @@ func (o Op) Text() string {
 		s += fmt.Sprintf(",pw=%q,n=%d,last-active-external=%d,last-active-change=%d", pws[o.Pw], o.N, o.Ea, o.Ca)
 	case "SetLabel":
 		s += fmt.Sprintf(",label=%q", labels[o.Label])
-	case "Encrypt", "Decrypt":
+	case "Encrypt", "Decrypt", "View", "GetSeed":
 		s += fmt.Sprintf(",pw=%q", pws[o.Pw])
 	case "Recover":
 		s += fmt.Sprintf(",seed=%q,newpw=%q", seedText(0, o.Seed), pws[o.Pw])
@@ -346,7 +352,7 @@ func viewText(v []AW) string {
 
 func cfg(dir string) wallet.Config {
 	bc := bip44.CoinTypeSkycoin
-	return wallet.Config{WalletDir: dir, CryptoType: crypto.CryptoTypeSha256Xor, EnableWalletAPI: true, Bip44Coin: &bc}
+	return wallet.Config{WalletDir: dir, CryptoType: crypto.CryptoTypeSha256Xor, EnableWalletAPI: true, EnableSeedAPI: true, Bip44Coin: &bc}
 }
 
 // chainActivity is a transactions finder that reports activity per chain: the
@@ -366,6 +372,21 @@ func (c *chainActivity) AddressesActivity(addrs []cipher.Addresser) ([]bool, err
 	}
 	c.calls++
 	return out, nil
+}
+
+// firstDiff names the first JSON line on which two serialised wallets differ.
+func firstDiff(a, b string) string {
+	la, lb := strings.Split(a, "\n"), strings.Split(b, "\n")
+	for i := 0; i < len(la) && i < len(lb); i++ {
+		if la[i] != lb[i] {
+			x := strings.TrimSpace(la[i])
+			if len(x) > 60 {
+				x = x[:60] + "..."
+			}
+			return "first differing line: " + x
+		}
+	}
+	return fmt.Sprintf("lengths %d / %d", len(a), len(b))
 }
 
 func copyDir(src, dst string) error {
@@ -466,6 +487,27 @@ func apply(s *wallet.Service, dir string, o Op, ab *abstractor, genN *int) (Op, 
 			}
 			return nil
 		})
+	case "View": // read-only use of the decrypted wallet (what signing a transaction does)
+		err = s.ViewSecrets(o.Name, pw, func(w wallet.Wallet) error {
+			_ = w.Seed()
+			_, e := w.GetEntries()
+			return e
+		})
+	case "GetSeed":
+		_, _, err = s.GetWalletSeed(o.Name, pw)
+	case "Read": // GetWallet, View, GetAddresses: the read paths of the API handlers
+		var w wallet.Wallet
+		w, err = s.GetWallet(o.Name)
+		if err == nil {
+			_, _ = w.Serialize()
+			err = s.View(o.Name, func(w wallet.Wallet) error {
+				_, e := w.GetAddresses()
+				return e
+			})
+		}
+		if err == nil {
+			_, err = s.GetAddresses(o.Name)
+		}
 	case "Upd":
 		err = s.Update(o.Name, func(w wallet.Wallet) error {
 			// a failing callback has already modified the wallet it was given
@@ -511,6 +553,16 @@ func genOp(r *Rng, mem []AW, everCreated []string) Op {
 		return 0
 	}
 	dfail := r.Chance(7)
+	if r.Chance(14) { // read-only calls
+		n := pickName()
+		switch r.Intn(3) {
+		case 0:
+			return Op{Kind: "View", Name: n, Pw: pwFor(n)}
+		case 1:
+			return Op{Kind: "GetSeed", Name: n, Pw: pwFor(n)}
+		}
+		return Op{Kind: "Read", Name: n}
+	}
 	k := r.Intn(100)
 	switch {
 	case k < 30 || len(mem) == 0 && k < 60:
@@ -731,6 +783,32 @@ func run(args []string) error {
 			{Kind: "Scan", Name: "a.wlt", N: 2, Ea: 0, Ca: 2, Dfail: true},
 		})
 
+	fixed = append(fixed,
+		[]Op{ // read-only calls on an encrypted bip44 wallet that got addresses while encrypted (no password)
+			{Kind: "Create", Name: "a.wlt", Typ: 2, Seed: 1, Label: 1, Enc: true, Pw: 1, N: 1},
+			{Kind: "View", Name: "a.wlt", Pw: 1},
+			{Kind: "NewAddr", Name: "a.wlt", N: 2},
+			{Kind: "View", Name: "a.wlt", Pw: 2}, // wrong password
+			{Kind: "View", Name: "a.wlt", Pw: 1},
+			{Kind: "GetSeed", Name: "a.wlt", Pw: 1},
+			{Kind: "Read", Name: "a.wlt"},
+			{Kind: "Scan", Name: "a.wlt", N: 2, Ea: 1, Ca: 2},
+			{Kind: "GetSeed", Name: "a.wlt", Pw: 1},
+			{Kind: "View", Name: "a.wlt", Pw: 1},
+			{Kind: "NewAddr", Name: "a.wlt", N: 1, Chg: true},
+			{Kind: "View", Name: "a.wlt", Pw: 0},
+			{Kind: "View", Name: "a.wlt", Pw: 1},
+			{Kind: "Create", Name: "d.wlt", Typ: 0, Seed: 2, Label: 1, Enc: true, Pw: 2, N: 2},
+			{Kind: "View", Name: "d.wlt", Pw: 2},
+			{Kind: "GetSeed", Name: "d.wlt", Pw: 1},
+			{Kind: "Create", Name: "p.wlt", Typ: 0, Seed: 3, Label: 1, N: 1},
+			{Kind: "View", Name: "p.wlt", Pw: 0},
+			{Kind: "View", Name: "p.wlt", Pw: 1},
+			{Kind: "GetSeed", Name: "p.wlt", Pw: 0},
+			{Kind: "Read", Name: "nosuch.wlt"},
+			{Kind: "View", Name: "nosuch.wlt", Pw: 1},
+		})
+
 	for si := 0; si < nseq+len(fixed); si++ {
 		dir := filepath.Join(root, fmt.Sprintf("s%05d", si))
 		if err := os.MkdirAll(dir, 0700); err != nil {
@@ -757,6 +835,9 @@ func run(args []string) error {
 		suspect := ""
 		unl := map[string]bool{}
 		prevMem, prevRel := "[]", "[]"
+		prevSer := map[string]string{}
+		unlAll := map[string]bool{}
+		serWhy := ""
 		for k := 0; k < nops; k++ {
 			var op Op
 			if si < len(fixed) {
@@ -784,6 +865,23 @@ func run(args []string) error {
 			if err != nil {
 				return err
 			}
+			// full serialised form of every wallet in memory (taken before the abstraction, which unlocks copies)
+			serMem := map[string]string{}
+			tempMem := map[string]bool{}
+			for n, w := range ws {
+				b, err := w.Serialize()
+				if err != nil {
+					return err
+				}
+				serMem[n] = string(b)
+				tempMem[n] = w.IsTemp()
+			}
+			if _, had := prevSer[done.Name]; done.Kind == "Unload" && had {
+				unlAll[done.Name] = true
+			}
+			if done.Kind == "Create" && opErr == nil && !done.Temp {
+				delete(unlAll, done.Name)
+			}
 			memView = ab.view(ws)
 			if op.Kind == "Create" && opErr == nil {
 				ever = append(ever, done.Name)
@@ -807,11 +905,37 @@ func run(args []string) error {
 				if err != nil {
 					return err
 				}
+				for n, w := range ws2 {
+					b, err := w.Serialize()
+					if err != nil {
+						return err
+					}
+					if m, ok := serMem[n]; ok && !tempMem[n] && !unlAll[n] && m != string(b) && serWhy == "" {
+						serWhy = "the serialised wallet " + n + " in memory differs from the one a fresh start loads (" + firstDiff(m, string(b)) + ")"
+					}
+				}
 				v := ab.view(ws2)
 				rel = "(RLoaded " + viewCoq(v) + ")"
 				relText = viewText(v)
 			}
 			os.RemoveAll(cp)
+			readOnly := done.Kind == "View" || done.Kind == "GetSeed" || done.Kind == "Read"
+			if (readOnly || cls != "") && serWhy == "" {
+				for n, b := range serMem {
+					if p, ok := prevSer[n]; !ok || p != b {
+						serWhy = "a read-only or failed call changed the serialised wallet " + n + " in memory (" + firstDiff(p, b) + ")"
+					}
+				}
+				if len(serMem) != len(prevSer) && serWhy == "" {
+					serWhy = "a read-only or failed call changed the set of wallets in memory"
+				}
+			}
+			prevSer = serMem
+			sok := serWhy == ""
+			if !sok && suspect == "" {
+				suspect = fmt.Sprintf("step %d, %s: %s", k, done.Text(), serWhy)
+			}
+			serWhy = ""
 			if suspect == "" {
 				inMemBefore := strings.Contains(prevMem, done.Name+"{")
 				if done.Kind == "Unload" && inMemBefore {
@@ -861,7 +985,7 @@ func run(args []string) error {
 				prevMem, prevRel = memT, relText
 			}
 			opsDone = append(opsDone, done)
-			stepItems = append(stepItems, Tuple(done.Coq(), OptErr(cls), viewCoq(memView), rel))
+			stepItems = append(stepItems, Tuple(done.Coq(), OptErr(cls), viewCoq(memView), rel, B(sok)))
 			stepTexts = append(stepTexts, fmt.Sprintf("%s -> err=%q mem=%s reload=%s", done.Text(), cls, viewText(memView), relText))
 			hist.Add("op:" + done.Kind)
 			if cls == "" {
@@ -880,7 +1004,7 @@ func run(args []string) error {
 		}
 		os.RemoveAll(dir)
 	}
-	o.Def("cases_seq", "list (op * error * list wallet * reloaded)", items)
+	o.Def("cases_seq", "list (op * error * list wallet * reloaded * bool)", items)
 	bi := []string{}
 	for _, b := range badTables {
 		bi = append(bi, Str(b))
